@@ -95,7 +95,9 @@ Spec == Init /\ [][Next]_vars
 
 ---------------------------------------------------------------------------
 Viol == SessionViol(inp, outs)
-C14_Session == LET v == Viol IN IF v = {} THEN TRUE ELSE PrintT(<<"MODELVIOL", v>>) /\ FALSE
+(* the predicates are monotone in the history (a violation of a prefix stays one), every behaviour
+   can be completed within the bounds: judging the complete behaviours judges all prefixes *)
+C14_Session == done => LET v == Viol IN IF v = {} THEN TRUE ELSE PrintT(<<"MODELVIOL", v>>) /\ FALSE
 
 EmitReplay == done => PrintT(<<"REPLAY", ToJson([kind |-> "session", p |-> [gap |-> p.gap],
                                                  input |-> inp, outm |-> outs])>>)
